@@ -1,10 +1,10 @@
 #!/bin/bash
 # run the full (known-findings-assumed) mirror under several Z3 seeds; report functions that fail under any seed
-D=/dev/shm/vp_stab; mkdir -p $D; cd $D
+V=$(cd "$(dirname "$0")/.." && pwd); D=/dev/shm/vp_stab_$$; mkdir -p $D; cd $D
 python3 - <<PY
-import sys,re; sys.path.insert(0,'/verif')
+import sys,re; sys.path.insert(0,'$V')
 from vp_lib.mirror import build_mirror
-b=build_mirror(out_path='$D/mirror.rs')
+b=build_mirror(repo='/repo', vdir='$V', out_path='$D/mirror.rs')
 s=open('$D/mirror.rs').read().split('\n')
 s=[l.replace('assert(','assume(',1) if '/* KF:' in l else l for l in s]
 open('$D/mirror.rs','w').write('\n'.join(s))
@@ -12,3 +12,5 @@ PY
 for seed in ${SEEDS:-0 1 2 3 4}; do
   echo "== seed $seed"; verus mirror.rs --num-threads ${THREADS:-8} --rlimit ${RLIMIT:-30} --smt-option smt.random_seed=$seed 2>&1 | grep -E "^error|verification results" -A3 | grep -E "^error|verification results|^ *[0-9]+ \|" | head -20
 done
+
+rm -rf $D
